@@ -25,7 +25,12 @@ type params struct {
 	Chains int    `json:"chains"`
 }
 
-var kinds = []string{"cq", "batch", "alias", "handover", "mix", "reassign", "cq", "batch", "mix", "mix"}
+// The case kind "reassign" (relayer re-assignment through ReassignOrphanedMessages) is NOT generated:
+// no begin/end-blocker or message handler of the tree under test calls that function, so a chain cannot
+// reach a re-assigned message; driving it by a direct keeper call produced an alarm
+// (cq/stale-signature-kept-after-relayer-change) about a state no real chain is in. The scripted
+// opening is kept in the source for the day the function gets wired in.
+var kinds = []string{"cq", "batch", "alias", "handover", "mix", "cq", "cq", "batch", "mix", "mix"}
 
 func cases(tier string, seed int64) []fw.Case {
 	n, steps := 30, 70
@@ -76,10 +81,11 @@ func run(c fw.Case, tier string, rec *fw.Recorder) {
 		}
 	}
 	n := len(h.log)
-	if n > 40 {
-		n = 40
+	if n > 12 {
+		n = 12
 	}
-	rec.Sample(map[string]any{"case": c.Name, "kind": p.Kind, "validators": len(h.vals), "chains": h.chains, "final_height": h.c.Height, "log_head": h.log[:n]})
+	rec.Sample(map[string]any{"case": c.Name, "kind": p.Kind, "validators": len(h.vals), "chains": h.chains, "final_height": h.c.Height,
+		"item_histories": h.mon.traces, "registrations_head": h.log[:n]})
 }
 
 // setup: jobs for every chain and a first valset update in every turnstone queue (the bring-up of
